@@ -195,6 +195,6 @@ class SensorModality(Enum):
             >>> SensorModality.from_value("camera")
             SensorModality.CAMERA
         """
-        for k, v in cls.__members__.items():
+        for _, v in cls.__members__.items():
             if v == name:
-                return k
+                return v
